@@ -480,8 +480,24 @@ def _array_params(fn):
     return out
 
 
-def inplace_argument_obligations(model, rep, fns, clause, rule="PUREARG"):
-    """A function that receives an array (annotation NDArray / AnyArray / np.ndarray / da.Array) must not change it in place: the caller keeps using the array -
+def exposed_buffers(model):
+    """Names of properties (of repository classes) that hand out an internal field as it is (`return self._x`): a caller holding the result holds the object's own
+    buffer."""
+    out = set()
+    for f in model.all_functions:
+        if f.cls is None or f.parent is not None:
+            continue
+        if not any(norm_src(d) in ("property", "cached_property", "functools.cached_property") for d in f.node.decorator_list):
+            continue
+        body = [st for st in f.node.body if not (isinstance(st, ast.Expr) and isinstance(st.value, ast.Constant))]
+        if len(body) == 1 and isinstance(body[0], ast.Return) and isinstance(body[0].value, ast.Attribute) and isinstance(body[0].value.value, ast.Name) and \
+                body[0].value.value.id == "self":
+            out.add(f.name)
+    return out
+
+
+def inplace_argument_obligations(model, rep, fns, clause, rule="PUREARG", through_properties=False):
+    """A function that returns a result and receives an array (annotation NDArray / AnyArray / np.ndarray / da.Array) must not change that array in place: the caller keeps using the array -
     the alignment models hand their *cached* pre-transformed template to every `_landscape` / `_optimize` call, so `template *= mask` there corrupts every later
     score.  In-place forms seen by the effect analysis: `p *= x`, `p[...] = x`, `p[...] += x`, mutating methods, also through helpers (depth 2)."""
     from ..effects import EffectAnalysis
@@ -489,15 +505,26 @@ def inplace_argument_obligations(model, rep, fns, clause, rule="PUREARG"):
     n = 0
     for fn in fns:
         ps = _array_params(fn)
-        if not ps:
+        if not ps and not through_properties:
             continue
+        if not any(isinstance(r, ast.Return) and r.value is not None and not (isinstance(r.value, ast.Constant) and r.value.value is None)
+                   for r in walk_no_nested(fn.node)):
+            continue  # a procedure (returns nothing): filling / accumulating into its argument is its contract
         n += 1
         rep.instance(rule, fn.loc())
         effs = [e for e in ea.closed_effects(fn, depth=2) if e.kind == "mutate" and e.root.startswith("param:") and e.root[6:] in ps]
+        if through_properties:
+            # `pos = mol.pos; pos /= scale`: the property hands out the object's own buffer, the in-place operation changes the caller's object
+            exposed = exposed_buffers(model)
+            effs += [e for e in ea.closed_effects(fn, depth=2) if e.kind == "mutate" and e.root.startswith("param:") and e.field in exposed and
+                     isinstance(e.node, (ast.AugAssign, ast.Assign))]
         # a parameter that was re-bound to a fresh array before the mutation (`img = img.copy(); img *= m`) is not the caller's array any more
         kept = []
+        returned = [r.value for r in walk_no_nested(fn.node) if isinstance(r, ast.Return) and r.value is not None]
         for e in effs:
             p = e.root[6:]
+            if returned and all(isinstance(v, ast.Name) and v.id == p for v in returned):
+                continue  # fill-and-return: the function's result *is* that argument (an output buffer)
             rebound = any(isinstance(st, ast.Assign) and any(isinstance(t, ast.Name) and t.id == p for t in st.targets) and
                           getattr(st, "lineno", 0) < getattr(e.node, "lineno", 0) for st in ast.walk(fn.node)) if e.fn is fn else False
             if not rebound:
